@@ -5,7 +5,7 @@ and return the stored (len, digest)); spec/FreqNorm.tla and spec/PrefixCode.tla 
 (frequency normalisation, Huffman code table) with their invariants.  MC_CodecSession checks the laws of
 the protocol; MC_FreqNorm / MC_PrefixCode model-check a normaliser / code builder written like the code
 over all frequency vectors of 2-4 symbols with counts <= 6 (the FSE normaliser as coded is expected to
-starve a present symbol).  harness bin c01 drives 50 subjects (codec x variant x stream count x preset)
+starve a present symbol).  harness bin c01 drives 51 subjects (codec x variant x stream count x preset)
 through the input families, logs every session and the REAL tables (Rans64Encoder::get_symbol,
 FseTable::dec_symbols, HuffmanTree::get_code); Trace_Codec validates every event.
 """
@@ -278,10 +278,10 @@ def run(ctx):
     cov["exhaustive"] = False
     cov["rule"] = ("one case = (subject, training data, payload) whose encode succeeded on a non-empty payload and whose decode with the matching "
                    "model and the original length was executed and judged by TLC against CodecSession.tla (refused encodes, empty payloads and "
-                   "skipped oversize payloads are not counted); subjects = 50: Huffman order 0 (new / from_frequencies); contextual order 0/1/2; "
+                   "skipped oversize payloads are not counted); subjects = 51: Huffman order 0 (new / from_frequencies); contextual order 0/1/2; "
                    "order-1 x1/x2/x4/x8 through encode_xN and through encode_with_interleaving; 6 SIMD tiers; ParallelHuffman x2/x4/x8 (+ "
                    "high_throughput config); rANS x1/x2/x4/x8, adaptive, symbol-level encode_symbol / decode_symbol crossed with the bulk API; FSE "
-                   "default/fast/high/realtime/balanced, fse_zip, fse_compress(+_with_config), block-parallel (4 x 16 KiB), with_dictionary, "
+                   "default/fast/high/realtime/balanced, fse_zip, fse_compress(+_with_config), block-parallel (16 KiB and 1 KiB blocks), with_dictionary, "
                    "table_log 5 / 15, analyze_frequencies training, symbol-level FseTable API; AdaptiveParallelEncoder; DictionaryCompressor and "
                    "OptimizedDictionaryCompressor (default and with_config / builder setters); BitOps variable-length field pair.  Cases are "
                    "distinct by construction (different subject, training mode same/other/superset, or generated payload).  Input families: all "
